@@ -313,3 +313,113 @@ func ssaMapIsFresh(v ssa.Value, fresh map[*types.Func]bool, depth int, seen map[
 	}
 	return false
 }
+
+func init() {
+	register(&Rule{ID: "VIEW.producers", Floor: 3,
+		Doc: "a list/vector header over the cells of a value the function does not own (a view that shares element slots with a pre-existing value) is built only by the documented view producers slice, cdr, rest and the elpspath range query, by the binder's &rest window, or by audited transient argument lists; every other operation returns storage of its own",
+		Run: func(c *Ctx) []Obligation {
+			permitted := map[string]string{
+				"lisp.builtinSlice":             "slice — documented view",
+				"lisp.builtinCDR":               "cdr — documented view",
+				"lisp.builtinRest":              "rest — documented view",
+				"lisp.(*LEnv).bindFormalNext":   "&rest window onto the call's own argument list",
+				"lisp.(*LEnv).bind":             "function body list handed to call()",
+				"lisp.opCond":                   "transient body list handed to opProgn",
+				"lisp.divInt":                   "transient argument list handed to divFloat",
+				"lisp.mulInt":                   "transient argument list handed to mulFloat",
+				"lisp.Array":                    "constructor (callers are the sites)",
+				"lisp.Value":                    "embedder conversion helper",
+				"lisp.(*LVal).goValueNode":      "embedder conversion (GoValue), transient list for goSlice",
+				"lisp/lisplib/libelpspath.(*rangePath).Get": "elpspath range query — documented O(1) view, clamped and seal-inheriting",
+			}
+			var obs []Obligation
+			for _, u := range c.Funcs(isKernel) {
+				a := newOwnAnalysis(c, u)
+				for _, s := range c.ownSitesCached(u) {
+					if s.rule != "MUT.view" {
+						continue
+					}
+					if strings.Contains(s.detail, "constructor wrapper") {
+						continue
+					}
+					// owned cells are not views of a pre-existing value
+					if s.sliceArg == nil {
+						continue
+					}
+					p := a.sliceProvOf(s.sliceArg, 0)
+					owned := !p.unknown
+					for _, x := range p.owners {
+						if k := a.lvalKind(x, 0); k != ownFresh && k != ownArgs {
+							owned = false
+						}
+					}
+					if owned {
+						continue
+					}
+					// append(clampCap(borrowed), more...) reallocates when `more` is non-empty
+					if a.appendReallocates(c, u, s.sliceArg, s.node) {
+						continue
+					}
+					if why, ok := permitted[u.Name()]; ok {
+						obs = append(obs, mkOb(c, "VIEW.producers", u, s.construct, s.node, Proved, "documented view producer: "+why, false))
+					} else {
+						obs = append(obs, mkOb(c, "VIEW.producers", u, s.construct, s.node, Violated,
+							"the result shares element slots with a value that existed before the call, in an operation that is not a documented view producer: a later in-place operation on either value (stable-sort) changes the other", true))
+					}
+				}
+			}
+			return obs
+		}})
+}
+
+// appendReallocates: e is append(X, more...) with X capacity-clamped, at a
+// site dominated by an edge implying len(more) != 0 — the result is then a
+// new array, not a view.
+func (a *ownAnalysis) appendReallocates(c *Ctx, u FuncUnit, e ast.Expr, site ast.Node) bool {
+	ce, ok := ast.Unparen(e).(*ast.CallExpr)
+	if !ok || len(ce.Args) != 2 || !ce.Ellipsis.IsValid() {
+		return false
+	}
+	id, ok := ast.Unparen(ce.Fun).(*ast.Ident)
+	if !ok || id.Name != "append" {
+		return false
+	}
+	p := a.sliceProvOf(ce.Args[0], 0)
+	if !p.clamped || p.unknown {
+		return false
+	}
+	more := identObj(a.info, ce.Args[1])
+	if more == nil {
+		return false
+	}
+	fc := c.cfgOf(u, nil)
+	loc, found := fc.Locate(site)
+	if !found {
+		return false
+	}
+	nonEmpty := fc.edgesImplying(func(at LitAtom) bool {
+		be, ok := ast.Unparen(at.E).(*ast.BinaryExpr)
+		if !ok {
+			return false
+		}
+		lc, ok := ast.Unparen(be.X).(*ast.CallExpr)
+		if !ok || len(lc.Args) != 1 || identObj(a.info, lc.Args[0]) != more {
+			return false
+		}
+		if lid, ok := ast.Unparen(lc.Fun).(*ast.Ident); !ok || lid.Name != "len" {
+			return false
+		}
+		k, okc := intConst(a.info, be.Y)
+		if !okc || k != 0 {
+			return false
+		}
+		switch be.Op {
+		case token.EQL:
+			return !at.Positive
+		case token.NEQ, token.GTR:
+			return at.Positive
+		}
+		return false
+	})
+	return len(nonEmpty) > 0 && !fc.reachableAvoiding(loc.B, nonEmpty)
+}
